@@ -3,10 +3,13 @@ package verifh
 import (
 	"context"
 	"encoding/json"
+	"errors"
 	"fmt"
+	"io"
 	"strings"
 
 	"github.com/creachadair/jrpc2"
+	"github.com/creachadair/jrpc2/channel"
 )
 
 func init() {
@@ -449,17 +452,21 @@ func (w *cliWorld) checkC05Final() {
 			return
 		}
 		// the reported cause must have occurred by then
-		kind := ""
-		switch {
-		case strings.Contains(w.onStop[0], "client has been stopped"):
-			kind = "close"
-		case w.onStop[0] == "EOF":
+		// classify the reported cause without relying on message texts: the
+		// error of Close is the only one that is none of the others
+		kind := "close"
+		var je *jrpc2.Error
+		switch e := w.onStopErr[0]; {
+		case e == nil:
+			r.Fail("onstop-cause", "OnStop received a nil error")
+			return
+		case errors.Is(e, io.EOF):
 			kind = "eof"
-		case strings.Contains(w.onStop[0], ErrInjected.Error()):
+		case errors.Is(e, ErrInjected):
 			kind = "error"
-		case strings.Contains(w.onStop[0], "closed"):
+		case channel.IsErrClosing(e):
 			kind = "close" // the reader saw its own channel closed
-		default:
+		case errors.As(e, &je):
 			kind = "malformed"
 		}
 		ok := false
